@@ -1095,9 +1095,12 @@ impl<'a> CompactionIterator<'a> {
 			let superseded = if let Some(newer_vis) = newer_version_visibility {
 				// Can we drop superseded versions in this scenario?
 				let snapshot_allows_drop = match current_visibility {
-					// Active snapshots exist - use visibility boundaries to decide
-					SnapshotVisibility::BoundedBySnapshot(_) => true,
-					SnapshotVisibility::NewerThanAllSnapshots => true,
+					// Active snapshots exist - use visibility boundaries to decide,
+					// unless versioning is enabled: which versions are retained must
+					// not depend on who happens to be reading, so the retention
+					// policy decides there as well
+					SnapshotVisibility::BoundedBySnapshot(_) => !self.enable_versioning,
+					SnapshotVisibility::NewerThanAllSnapshots => !self.enable_versioning,
 					// No snapshots - only drop if versioning is disabled
 					// (with versioning enabled, retention policy decides instead)
 					SnapshotVisibility::NoActiveSnapshots => !self.enable_versioning,
@@ -1111,10 +1114,17 @@ impl<'a> CompactionIterator<'a> {
 				false
 			};
 
+			// Hidden from every snapshot by a newer version in the same visibility
+			// boundary (whether or not that alone allows dropping it)
+			let hidden_in_boundary = !is_latest
+				&& newer_version_visibility
+					.is_some_and(|newer_vis| self.same_visibility_boundary(newer_vis, current_visibility));
+
 			// Is this version required by an active snapshot?
-			// (Only matters if not already superseded by a newer version)
-			let required_by_snapshot =
-				!superseded && self.must_preserve_for_snapshot(current_visibility);
+			// (Only the newest version of a visibility boundary is)
+			let required_by_snapshot = !superseded
+				&& !hidden_in_boundary
+				&& self.must_preserve_for_snapshot(current_visibility);
 
 			// ===== DETERMINE IF ENTRY IS STALE =====
 			// Stale entries are filtered out during compaction
